@@ -81,6 +81,18 @@ def body_class(body, T=None):
     return ("other",)
 
 
+PANIC_REASONS = {
+    "annotate_type_with_depth | unwrap(internal::find_type)#0":
+        "TypeInner::Knot ids are created only by candid::types::internal (ty() / TypeContainer) after the id was registered in the ID map, "
+        "and env_clear does not touch that map: find_type(id) is Some for every Knot that exists",
+    "annotate_type_with_depth | unwrap(TypeEnv::trace_type_with_depth)#0":
+        "the property quantifies over types of a closed (checked) environment, so the lookup cannot fail for an unbound name; the depth "
+        "guard taken at the head of annotate_type_with_depth already rejected nestings beyond the limit on this path",
+    "value_ty | index(&Vec<IDLValue>)[lit]#0":
+        "vec[0] in the else branch of `if vec.is_empty()`",
+}
+
+
 def run(chk, facts, tier, only=None):
     c = facts.crate("candid")
     mx = Matrix(facts)
@@ -266,7 +278,29 @@ def run(chk, facts, tier, only=None):
         okk = len(gets) >= 1 and all("internal::Label" in x["recv_ty"] and "String" not in x["recv_ty"].split(",")[0] for x in gets)
         chk.expect(okk, "record-lookup:by-label", f"the record arm must look fields up in a map keyed by Label (identity = id), found {[x['recv_ty'][:80] for x in gets]}")
 
-    for rid, desc, fn in (("C10.R1", "annotation accepts exactly the allowed (value, type) constructor pairs, in both parser modes", r1),
+    def r5():
+        # "a value that is not of type t is rejected … instead of producing a message": rejection means an Err, so the functions that
+        # annotate and encode untyped values may not contain a panic site that a (value, type) pair can reach
+        import c13_util as U
+        total = 0
+        rx = (r"value::(IDLArgs|IDLValue)::(annotate_types|annotate_type|annotate_type_with_depth|to_bytes_with_types|to_bytes|get_types|value_ty)$"
+              r"|ser::IDLBuilder::(value_arg_with_type|value_arg)$"
+              r"|^<candid::types::value::IDLValue as candid::types::CandidType>::(idl_serialize|_ty)$")
+        fns = [h for k, h in sorted(c.hir.items()) if re.search(rx, k)]
+        chk.floor("functions on the annotate / untyped-encode path", len(fns), 10)
+        for h in fns:
+            chk.analysed(h["key"])
+            for st in U.sites(U.Tree(h)):
+                total += 1
+                key = f"{h['key'].rsplit('::', 1)[-1]} | {st['desc']}#{st['ord']}"
+                why = PANIC_REASONS.get(key)
+                chk.expect(why is not None, f"panic-site:{key.replace('::', '.')}",
+                           f"{h['key']}: `{st['desc']}` can panic and has no reviewed reason: a value/type pair that should be rejected with an "
+                           f"error must not abort the process", where=f"{h['span']['file']}:{st['ln']}", ok_detail=why)
+        chk.ok("panic-sites-inventoried", f"{total} panic-capable construct(s) on the annotate / untyped-encode path, all with a reviewed reason")
+
+    for rid, desc, fn in (("C10.R5", "no unreviewed panic site on the annotate / untyped-encode path", r5),
+                          ("C10.R1", "annotation accepts exactly the allowed (value, type) constructor pairs, in both parser modes", r1),
                           ("C10.R2", "value constructor / type / serializer / visitor rows agree", r2),
                           ("C10.R3", "variant index provenance; the annotated value is what gets serialised", r3),
                           ("C10.R4", "record fields are looked up by label id", r4)):
